@@ -18,6 +18,7 @@ Each recogniser is compared with the real compiled pattern object of the extensi
 -/
 import MdVerif.Py.Basic
 import MdVerif.Model.Tree
+import MdVerif.Model.Ext.Meta
 
 namespace MdVerif.Ext.Trig
 open MdVerif.Py
@@ -232,8 +233,9 @@ def fenceOpenAt (t : Str) : Bool := startsWith t ['~', '~', '~'] || startsWith t
 def fenceOpenSearch (s : Str) : Bool := anyLineStart fenceOpenAt s
 
 /-! ### meta.py — on single lines (the preprocessor receives `source.split('\n')`)
-`META_RE = ^[ ]{0,3}(?P<key>[A-Za-z0-9_-]+):\s*(?P<value>.*)`, `BEGIN_RE = ^-{3}(\s.*)?`,
-`END_RE = ^(-{3}|\.{3})(\s.*)?`, all used with `match`; the optional groups make the tails irrelevant. -/
+`META_RE = ^[ ]{0,3}(?P<key>[A-Za-z0-9_-]+):\s*(?P<value>.*)`, `BEGIN_RE = ^-{3}(\s.*)?$`,
+`END_RE = ^(-{3}|\.{3})(\s.*)?$`, all used with `match` (anchored at the end of the line since the repair of F-C16-3;
+the recognisers are those of `Model/Ext/Meta.lean`). -/
 
 def isMetaKeyChar (c : Char) : Bool := isAsciiAlnum c || c = '_' || c = '-'
 
@@ -246,17 +248,18 @@ def metaKey : Bool → Str → Bool
 def metaKeyLine (l : Str) : Bool := optSpaces (metaKey false) 3 l
 
 /-- `BEGIN_RE.match(line) is not None` -/
-def metaBeginLine (l : Str) : Bool := startsWith l ['-', '-', '-']
+def metaBeginLine (l : Str) : Bool := Meta.beginMatch l
 
 /-- `END_RE.match(line) is not None` -/
-def metaEndLine (l : Str) : Bool := startsWith l ['-', '-', '-'] || startsWith l ['.', '.', '.']
+def metaEndLine (l : Str) : Bool := Meta.endMatch l
 
 /-- the entry condition named in the property: the first line is a `key:` line or the `---` opener -/
 def metaFirstLine (l : Str) : Bool := metaKeyLine l || metaBeginLine l
 
 /-- `MetaPreprocessor.run(lines) != lines` for `lines = l :: rest`: the first line is consumed when it is the opener,
-    blank, an end marker (`---` **or `...`**), or a `key:` line; otherwise it is put back and nothing changes -/
-def metaConsumes (l : Str) : Bool := metaBeginLine l || isBlank l || metaEndLine l || metaKeyLine l
+    blank, or a `key:` line; otherwise it is put back and nothing changes (before the repair of F-C16-3 an end marker
+    `---`/`...` was honoured too although nothing had been opened) -/
+def metaConsumes (l : Str) : Bool := metaBeginLine l || isBlank l || metaKeyLine l
 
 /-! ### tables.py — `TableProcessor.test`, necessary condition only
 `rows = [row.strip(' ') for row in block.split('\n')]`; `len(rows) > 1`; the header row must split into more than one
